@@ -569,6 +569,31 @@ def «memb.synchronize_rcu» : Stmt :=
   block [(.assign "_goto_out" (.lit 0)), (.pstore (.fieldAddr (.addrGlob "&wait") "state") (.cst "URCU_WAIT_WAITING" (0))), (.call (some "_t1") ["queue", "node"] [.addrGlob "gp_waiters", .addrGlob "&wait"] «urcu_wait_add»), (.ifte (.bin .ne (.var "_t1") (.lit 0)) (block [(.call none ["wait"] [.addrGlob "&wait"] «urcu_adaptative_busy_wait»), (.ret none)]) (.skip)), (.call none ["node", "state"] [.addrGlob "&wait", .cst "URCU_WAIT_RUNNING" (2)] «urcu_wait_set_state»), (.prim none (.ext "mutex_lock") [.addrGlob "rcu_gp_lock"]), (.call none ["waiters", "queue"] [.addrGlob "&waiters", .addrGlob "gp_waiters"] «urcu_move_waiters»), (.prim none (.ext "mutex_lock") [.addrGlob "rcu_registry_lock"]), (.prim (some "_t2") (.ext "cds_list_empty") [.addrGlob "registry"]), (.ifte (.var "_t2") (.assign "_goto_out" (.lit 1)) (.skip)), (.ifte (.var "_goto_out") (.skip) (block [(.call none [] [] «memb.smp_mb_master»), (.call none ["input_readers", "cur_snap_readers", "qsreaders", "group"] [.addrGlob "registry", .addrGlob "&cur_snap_readers", .addrGlob "&qsreaders", .addrGlob "&acquire_group"] «memb.wait_for_readers»), (.prim none .barrier []), (.prim none .mb []), (.prim none .ustore [.fieldAddr (.addrGlob "rcu_gp") "ctr", .bin .bxor (.pload (.fieldAddr (.addrGlob "rcu_gp") "ctr")) (.cst "URCU_GP_CTR_PHASE" (4294967296)), .cst "CMM_RELAXED" (0)]), (.prim none .barrier []), (.prim none .mb []), (.call none ["input_readers", "cur_snap_readers", "qsreaders", "group"] [.addrGlob "&cur_snap_readers", .null, .addrGlob "&qsreaders", .addrGlob "&acquire_group"] «memb.wait_for_readers»), (.prim none (.ext "cds_list_splice") [.addrGlob "&qsreaders", .addrGlob "registry"]), (.call none [] [] «memb.smp_mb_master»)])), (.assign "_goto_out" (.lit 0)), (.prim none (.ext "mutex_unlock") [.addrGlob "rcu_registry_lock"]), (.prim none (.ext "mutex_unlock") [.addrGlob "rcu_gp_lock"]), (.call none ["waiters"] [.addrGlob "&waiters"] «urcu_wake_all_waiters»)]
 def «memb.synchronize_rcu.params» : List String := []
 
+/-- `rcu_sys_membarrier_status` (src/urcu.c, with RCU_MEMBARRIER) -/
+def «memb.rcu_sys_membarrier_status» : Stmt :=
+  block [(.ifte (.un .lnot (.var "available")) (.ret none) (.skip)), (.assign "_t1" (.lit 1)), (.pstore (.addrGlob "urcu_memb_has_sys_membarrier") (.var "_t1"))]
+def «memb.rcu_sys_membarrier_status.params» : List String := ["available"]
+
+/-- `rcu_sys_membarrier_init` (src/urcu.c, with RCU_MEMBARRIER) -/
+def «memb.rcu_sys_membarrier_init» : Stmt :=
+  block [(.assign "available" (.lit 0)), (.prim (some "_t1") (.ext "membarrier") [.cst "MEMBARRIER_CMD_QUERY" (0), .lit 0]), (.assign "mask" (.var "_t1")), (.ifte (.bin .ge (.var "mask") (.lit 0)) (.ifte (.bin .band (.var "mask") (.cst "MEMBARRIER_CMD_PRIVATE_EXPEDITED" (8))) (block [(.prim (some "_t2") (.ext "membarrier") [.cst "MEMBARRIER_CMD_REGISTER_PRIVATE_EXPEDITED" (16), .lit 0]), (.ifte (.var "_t2") (block [(.prim (some "_t3") (.ext "errno") []), (.prim none (.ext "urcu_die") [.var "_t3"])]) (.skip)), (.assign "_t4" (.lit 1)), (.pstore (.addrGlob "urcu_memb_has_sys_membarrier_private_expedited") (.var "_t4")), (.assign "available" (.lit 1))]) (.ifte (.bin .band (.var "mask") (.cst "MEMBARRIER_CMD_SHARED" (1))) (.assign "available" (.lit 1)) (.skip))) (.skip)), (.call none ["available"] [.var "available"] «memb.rcu_sys_membarrier_status»)]
+def «memb.rcu_sys_membarrier_init.params» : List String := []
+
+/-- `rcu_init` (src/urcu.c, with RCU_MEMBARRIER) -/
+def «memb.rcu_init» : Stmt :=
+  block [(.ifte (.pload (.addrGlob "init_done")) (.ret none) (.skip)), (.assign "_t1" (.lit 1)), (.pstore (.addrGlob "init_done") (.var "_t1")), (.call none [] [] «memb.rcu_sys_membarrier_init»)]
+def «memb.rcu_init.params» : List String := []
+
+/-- `rcu_register_thread` (src/urcu.c, with RCU_MEMBARRIER) -/
+def «memb.rcu_register_thread» : Stmt :=
+  block [(.prim (some "_t1") (.ext "pthread_self") []), (.assign "_t2" (.var "_t1")), (.pstore (.fieldAddr (.addrTls "rcu_reader") "tid") (.var "_t2")), (.prim none (.ext "mutex_lock") [.addrGlob "rcu_registry_lock"]), (.assign "_t3" (.lit 1)), (.pstore (.fieldAddr (.addrTls "rcu_reader") "registered") (.var "_t3")), (.call none [] [] «memb.rcu_init»), (.prim none (.ext "cds_list_add") [.fieldAddr (.addrTls "rcu_reader") "node", .addrGlob "registry"]), (.prim none (.ext "mutex_unlock") [.addrGlob "rcu_registry_lock"])]
+def «memb.rcu_register_thread.params» : List String := []
+
+/-- `rcu_unregister_thread` (src/urcu.c, with RCU_MEMBARRIER) -/
+def «memb.rcu_unregister_thread» : Stmt :=
+  block [(.prim none (.ext "mutex_lock") [.addrGlob "rcu_registry_lock"]), (.assign "_t1" (.lit 0)), (.pstore (.fieldAddr (.addrTls "rcu_reader") "registered") (.var "_t1")), (.prim none (.ext "cds_list_del") [.fieldAddr (.addrTls "rcu_reader") "node"]), (.prim none (.ext "mutex_unlock") [.addrGlob "rcu_registry_lock"])]
+def «memb.rcu_unregister_thread.params» : List String := []
+
 /-- `smp_mb_master` (src/urcu.c, with RCU_MB) -/
 def «mb.smp_mb_master» : Stmt :=
   .prim none .mb []
@@ -624,6 +649,16 @@ def «qsbr.urcu_qsbr_synchronize_rcu» : Stmt :=
   block [(.assign "_goto_gp_end" (.lit 0)), (.assign "_goto_out" (.lit 0)), (.pstore (.fieldAddr (.addrGlob "&wait") "state") (.cst "URCU_WAIT_WAITING" (0))), (.call (some "_t1") [] [] «qsbr.urcu_qsbr_read_ongoing»), (.assign "was_online" (.var "_t1")), (.ifte (.var "was_online") (.call none [] [] «qsbr.urcu_qsbr_thread_offline») (.prim none .mb [])), (.call (some "_t2") ["queue", "node"] [.addrGlob "gp_waiters", .addrGlob "&wait"] «urcu_wait_add»), (.ifte (.bin .ne (.var "_t2") (.lit 0)) (block [(.call none ["wait"] [.addrGlob "&wait"] «urcu_adaptative_busy_wait»), (.assign "_goto_gp_end" (.lit 1))]) (.skip)), (.ifte (.var "_goto_gp_end") (.skip) (block [(.call none ["node", "state"] [.addrGlob "&wait", .cst "URCU_WAIT_RUNNING" (2)] «urcu_wait_set_state»), (.prim none (.ext "mutex_lock") [.addrGlob "rcu_gp_lock"]), (.call none ["waiters", "queue"] [.addrGlob "&waiters", .addrGlob "gp_waiters"] «urcu_move_waiters»), (.prim none (.ext "mutex_lock") [.addrGlob "rcu_registry_lock"]), (.prim (some "_t3") (.ext "cds_list_empty") [.addrGlob "registry"]), (.ifte (.var "_t3") (.assign "_goto_out" (.lit 1)) (.skip)), (.ifte (.var "_goto_out") (.skip) (block [(.prim none .ustore [.fieldAddr (.addrGlob "urcu_qsbr_gp") "ctr", .bin .add (.pload (.fieldAddr (.addrGlob "urcu_qsbr_gp") "ctr")) (.cst "URCU_QSBR_GP_CTR" (2)), .cst "CMM_RELAXED" (0)]), (.prim none .barrier []), (.prim none .mb []), (.call none ["input_readers", "cur_snap_readers", "qsreaders", "group"] [.addrGlob "registry", .null, .addrGlob "&qsreaders", .addrGlob "&acquire_group"] «qsbr.wait_for_readers»), (.prim none (.ext "cds_list_splice") [.addrGlob "&qsreaders", .addrGlob "registry"])])), (.assign "_goto_out" (.lit 0)), (.prim none (.ext "mutex_unlock") [.addrGlob "rcu_registry_lock"]), (.prim none (.ext "mutex_unlock") [.addrGlob "rcu_gp_lock"]), (.call none ["waiters"] [.addrGlob "&waiters"] «urcu_wake_all_waiters»)])), (.assign "_goto_gp_end" (.lit 0)), (.ifte (.var "was_online") (.call none [] [] «qsbr.urcu_qsbr_thread_online») (.prim none .mb []))]
 def «qsbr.urcu_qsbr_synchronize_rcu.params» : List String := []
 
+/-- `urcu_qsbr_register_thread` (src/urcu-qsbr.c) -/
+def «qsbr.urcu_qsbr_register_thread» : Stmt :=
+  block [(.prim (some "_t1") (.ext "pthread_self") []), (.assign "_t2" (.var "_t1")), (.pstore (.fieldAddr (.addrTls "urcu_qsbr_reader") "tid") (.var "_t2")), (.prim none (.ext "mutex_lock") [.addrGlob "rcu_registry_lock"]), (.assign "_t3" (.lit 1)), (.pstore (.fieldAddr (.addrTls "urcu_qsbr_reader") "registered") (.var "_t3")), (.prim none (.ext "cds_list_add") [.fieldAddr (.addrTls "urcu_qsbr_reader") "node", .addrGlob "registry"]), (.prim none (.ext "mutex_unlock") [.addrGlob "rcu_registry_lock"]), (.call none [] [] «_urcu_qsbr_thread_online»)]
+def «qsbr.urcu_qsbr_register_thread.params» : List String := []
+
+/-- `urcu_qsbr_unregister_thread` (src/urcu-qsbr.c) -/
+def «qsbr.urcu_qsbr_unregister_thread» : Stmt :=
+  block [(.call none [] [] «_urcu_qsbr_thread_offline»), (.assign "_t1" (.lit 0)), (.pstore (.fieldAddr (.addrTls "urcu_qsbr_reader") "registered") (.var "_t1")), (.prim none (.ext "mutex_lock") [.addrGlob "rcu_registry_lock"]), (.prim none (.ext "cds_list_del") [.fieldAddr (.addrTls "urcu_qsbr_reader") "node"]), (.prim none (.ext "mutex_unlock") [.addrGlob "rcu_registry_lock"])]
+def «qsbr.urcu_qsbr_unregister_thread.params» : List String := []
+
 /-- `urcu_poll_worker_cb` (src/urcu-poll-impl.h) -/
 def «poll.urcu_poll_worker_cb» : Stmt :=
   block [(.prim none (.ext "mutex_lock") [.fieldAddr (.addrGlob "poll_worker_gp_state") "lock"]), (.assign "_t1" (.pload (.fieldAddr (.fieldAddr (.addrGlob "poll_worker_gp_state") "current_state") "grace_period_id"))), (.pstore (.fieldAddr (.fieldAddr (.addrGlob "poll_worker_gp_state") "current_state") "grace_period_id") (.bin .add (.var "_t1") (.lit 1))), (.ifte (.bin .ge (.bin .sub (.pload (.fieldAddr (.fieldAddr (.addrGlob "poll_worker_gp_state") "latest_target") "grace_period_id")) (.pload (.fieldAddr (.fieldAddr (.addrGlob "poll_worker_gp_state") "current_state") "grace_period_id"))) (.lit 0)) (.prim none (.ext "call_rcu") [.fieldAddr (.addrGlob "poll_worker_gp_state") "rcu_head", .addrGlob "urcu_poll_worker_cb"]) (block [(.assign "_t2" (.lit 0)), (.pstore (.fieldAddr (.addrGlob "poll_worker_gp_state") "active") (.var "_t2"))])), (.prim none (.ext "mutex_unlock") [.fieldAddr (.addrGlob "poll_worker_gp_state") "lock"])]
@@ -659,7 +694,97 @@ def «bp.urcu_bp_synchronize_rcu» : Stmt :=
   block [(.assign "_goto_out" (.lit 0)), (.prim (some "_t1") (.ext "sigfillset") [.addrGlob "&newmask"]), (.assign "ret" (.var "_t1")), (.prim (some "_t2") (.ext "pthread_sigmask") [.cst "SIG_BLOCK" (0), .addrGlob "&newmask", .addrGlob "&oldmask"]), (.assign "ret" (.var "_t2")), (.prim none (.ext "mutex_lock") [.addrGlob "rcu_gp_lock"]), (.prim none (.ext "mutex_lock") [.addrGlob "rcu_registry_lock"]), (.prim (some "_t3") (.ext "cds_list_empty") [.addrGlob "registry"]), (.ifte (.var "_t3") (.assign "_goto_out" (.lit 1)) (.skip)), (.ifte (.var "_goto_out") (.skip) (block [(.call none [] [] «bp.smp_mb_master»), (.call none ["input_readers", "cur_snap_readers", "qsreaders", "group"] [.addrGlob "registry", .addrGlob "&cur_snap_readers", .addrGlob "&qsreaders", .addrGlob "&acquire_group"] «bp.wait_for_readers»), (.prim none .mb []), (.prim none .ustore [.fieldAddr (.addrGlob "rcu_gp") "ctr", .bin .bxor (.pload (.fieldAddr (.addrGlob "rcu_gp") "ctr")) (.cst "URCU_BP_GP_CTR_PHASE" (4294967296)), .cst "CMM_RELAXED" (0)]), (.prim none .mb []), (.call none ["input_readers", "cur_snap_readers", "qsreaders", "group"] [.addrGlob "&cur_snap_readers", .null, .addrGlob "&qsreaders", .addrGlob "&acquire_group"] «bp.wait_for_readers»), (.prim none (.ext "cds_list_splice") [.addrGlob "&qsreaders", .addrGlob "registry"]), (.call none [] [] «bp.smp_mb_master»)])), (.assign "_goto_out" (.lit 0)), (.prim none (.ext "mutex_unlock") [.addrGlob "rcu_registry_lock"]), (.prim none (.ext "mutex_unlock") [.addrGlob "rcu_gp_lock"]), (.prim (some "_t4") (.ext "pthread_sigmask") [.cst "SIG_SETMASK" (2), .addrGlob "&oldmask", .null]), (.assign "ret" (.var "_t4"))]
 def «bp.urcu_bp_synchronize_rcu.params» : List String := []
 
+/-- `urcu_bp_sys_membarrier_status` (src/urcu-bp.c) -/
+def «bp.urcu_bp_sys_membarrier_status» : Stmt :=
+  block [(.ifte (.un .lnot (.var "available")) (.ret none) (.skip)), (.assign "_t1" (.lit 1)), (.pstore (.addrGlob "urcu_bp_has_sys_membarrier") (.var "_t1"))]
+def «bp.urcu_bp_sys_membarrier_status.params» : List String := ["available"]
+
+/-- `urcu_bp_sys_membarrier_init` (src/urcu-bp.c) -/
+def «bp.urcu_bp_sys_membarrier_init» : Stmt :=
+  block [(.assign "available" (.lit 0)), (.prim (some "_t1") (.ext "membarrier") [.cst "MEMBARRIER_CMD_QUERY" (0), .lit 0]), (.assign "mask" (.var "_t1")), (.ifte (.bin .ge (.var "mask") (.lit 0)) (.ifte (.bin .band (.var "mask") (.cst "MEMBARRIER_CMD_PRIVATE_EXPEDITED" (8))) (block [(.prim (some "_t2") (.ext "membarrier") [.cst "MEMBARRIER_CMD_REGISTER_PRIVATE_EXPEDITED" (16), .lit 0]), (.ifte (.var "_t2") (block [(.prim (some "_t3") (.ext "errno") []), (.prim none (.ext "urcu_die") [.var "_t3"])]) (.skip)), (.assign "available" (.lit 1))]) (.skip)) (.skip)), (.call none ["available"] [.var "available"] «bp.urcu_bp_sys_membarrier_status»)]
+def «bp.urcu_bp_sys_membarrier_init.params» : List String := []
+
+/-- `_urcu_bp_init` (src/urcu-bp.c) -/
+def «bp._urcu_bp_init» : Stmt :=
+  block [(.prim none (.ext "mutex_lock") [.addrGlob "init_lock"]), (.assign "_t1" (.pload (.addrGlob "urcu_bp_refcount"))), (.pstore (.addrGlob "urcu_bp_refcount") (.bin .add (.var "_t1") (.lit 1))), (.ifte (.un .lnot (.var "_t1")) (block [(.prim (some "_t2") (.ext "pthread_key_create") [.addrGlob "urcu_bp_key", .addrGlob "urcu_bp_thread_exit_notifier"]), (.assign "ret" (.var "_t2")), (.ifte (.var "ret") (.prim none (.ext "abort") []) (.skip)), (.call none [] [] «bp.urcu_bp_sys_membarrier_init»), (.assign "_t3" (.lit 1)), (.pstore (.addrGlob "initialized") (.var "_t3"))]) (.skip)), (.prim none (.ext "mutex_unlock") [.addrGlob "init_lock"])]
+def «bp._urcu_bp_init.params» : List String := []
+
+/-- `chunk_allocation_size` (src/urcu-bp.c) -/
+def «bp.chunk_allocation_size» : Stmt :=
+  .ret (some (.bin .add (.bin .mul (.var "capacity") (.cst "SIZEOF_struct_urcu_bp_reader" (256))) (.cst "SIZEOF_struct_registry_chunk" (128))))
+def «bp.chunk_allocation_size.params» : List String := ["capacity"]
+
+/-- `mremap_wrapper` (src/urcu-bp.c) -/
+def «bp.mremap_wrapper» : Stmt :=
+  .ret (some (.cst "MAP_FAILED" (-1)))
+def «bp.mremap_wrapper.params» : List String := ["old_address", "old_size", "new_size", "flags"]
+
+/-- `expand_arena` (src/urcu-bp.c) -/
+def «bp.expand_arena» : Stmt :=
+  block [(.prim (some "_t1") (.ext "cds_list_empty") [.fieldAddr (.var "arena") "chunk_list"]), (.ifte (.var "_t1") (block [(.call (some "_t2") ["capacity"] [.cst "bp.INIT_READER_COUNT" (8)] «bp.chunk_allocation_size»), (.assign "new_chunk_size_bytes" (.var "_t2")), (.prim (some "_t3") (.ext "mmap") [.null, .var "new_chunk_size_bytes", .bin .bor (.cst "PROT_READ" (1)) (.cst "PROT_WRITE" (2)), .bin .bor (.cst "bp.MAP_ANONYMOUS" (32)) (.cst "MAP_PRIVATE" (2)), .lit (-1), .lit 0]), (.assign "new_chunk" (.var "_t3")), (.ifte (.bin .eq (.var "new_chunk") (.cst "MAP_FAILED" (-1))) (.prim none (.ext "abort") []) (.skip)), (.prim none (.ext "memset") [.var "new_chunk", .lit 0, .var "new_chunk_size_bytes"]), (.assign "_t4" (.cst "bp.INIT_READER_COUNT" (8))), (.pstore (.fieldAddr (.var "new_chunk") "capacity") (.var "_t4")), (.prim none (.ext "cds_list_add_tail") [.fieldAddr (.var "new_chunk") "node", .fieldAddr (.var "arena") "chunk_list"]), (.ret none)]) (.skip)), (.assign "last_chunk" (.parent (.pload (.fieldAddr (.fieldAddr (.var "arena") "chunk_list") "prev")) "node")), (.call (some "_t5") ["capacity"] [.pload (.fieldAddr (.var "last_chunk") "capacity")] «bp.chunk_allocation_size»), (.assign "old_chunk_size_bytes" (.var "_t5")), (.assign "new_capacity" (.bin .shl (.pload (.fieldAddr (.var "last_chunk") "capacity")) (.lit 1))), (.call (some "_t6") ["capacity"] [.var "new_capacity"] «bp.chunk_allocation_size»), (.assign "new_chunk_size_bytes" (.var "_t6")), (.call (some "_t7") ["old_address", "old_size", "new_size", "flags"] [.var "last_chunk", .var "old_chunk_size_bytes", .var "new_chunk_size_bytes", .lit 0] «bp.mremap_wrapper»), (.assign "new_chunk" (.var "_t7")), (.ifte (.bin .ne (.var "new_chunk") (.cst "MAP_FAILED" (-1))) (block [(.prim none (.ext "assert") [.bin .eq (.var "new_chunk") (.var "last_chunk")]), (.prim none (.ext "memset") [.bin .add (.var "last_chunk") (.var "old_chunk_size_bytes"), .lit 0, .bin .sub (.var "new_chunk_size_bytes") (.var "old_chunk_size_bytes")]), (.assign "_t8" (.var "new_capacity")), (.pstore (.fieldAddr (.var "last_chunk") "capacity") (.var "_t8")), (.ret none)]) (.skip)), (.prim (some "_t9") (.ext "mmap") [.null, .var "new_chunk_size_bytes", .bin .bor (.cst "PROT_READ" (1)) (.cst "PROT_WRITE" (2)), .bin .bor (.cst "bp.MAP_ANONYMOUS" (32)) (.cst "MAP_PRIVATE" (2)), .lit (-1), .lit 0]), (.assign "new_chunk" (.var "_t9")), (.ifte (.bin .eq (.var "new_chunk") (.cst "MAP_FAILED" (-1))) (.prim none (.ext "abort") []) (.skip)), (.prim none (.ext "memset") [.var "new_chunk", .lit 0, .var "new_chunk_size_bytes"]), (.assign "_t10" (.var "new_capacity")), (.pstore (.fieldAddr (.var "new_chunk") "capacity") (.var "_t10")), (.prim none (.ext "cds_list_add_tail") [.fieldAddr (.var "new_chunk") "node", .fieldAddr (.var "arena") "chunk_list"])]
+def «bp.expand_arena.params» : List String := ["arena"]
+
+/-- `arena_alloc` (src/urcu-bp.c) -/
+def «bp.arena_alloc» : Stmt :=
+  block [(.assign "_goto_retry" (.lit 0)), (.assign "expand_done" (.lit 0)), (.assign "_goto_retry" (.lit 0)), (.prim (some "_t1") (.ext "cds_list_for_each_entry.first") [.fieldAddr (.var "arena") "chunk_list"]), (.loop (block [(.assign "chunk" (.var "_t1")), (.ifte (.var "chunk") (.skip) (.brk)), (.prim (some "_t1") (.ext "cds_list_for_each_entry.next") ([.fieldAddr (.var "arena") "chunk_list"] ++ [.var "chunk"])), (.ifte (.bin .eq (.pload (.fieldAddr (.var "chunk") "used")) (.pload (.fieldAddr (.var "chunk") "capacity"))) (.cont) (.skip)), (.assign "spot_idx" (.lit 0)), (.loop (.ifte (.bin .lt (.var "spot_idx") (.pload (.fieldAddr (.var "chunk") "capacity"))) (block [(.ifte (.un .lnot (.pload (.fieldAddr (.index (.fieldAddr (.var "chunk") "readers") (.var "spot_idx")) "alloc"))) (block [(.assign "_t2" (.lit 1)), (.pstore (.fieldAddr (.index (.fieldAddr (.var "chunk") "readers") (.var "spot_idx")) "alloc") (.var "_t2")), (.assign "_t3" (.pload (.fieldAddr (.var "chunk") "used"))), (.pstore (.fieldAddr (.var "chunk") "used") (.bin .add (.var "_t3") (.lit 1))), (.ret (some (.index (.fieldAddr (.var "chunk") "readers") (.var "spot_idx"))))]) (.skip)), (.assign "_t4" (.var "spot_idx")), (.assign "spot_idx" (.bin .add (.var "spot_idx") (.lit 1)))]) (.brk)))])), (.ifte (.un .lnot (.var "expand_done")) (block [(.call none ["arena"] [.var "arena"] «bp.expand_arena»), (.assign "expand_done" (.lit 1)), (.assign "_goto_retry" (.lit 1))]) (.skip)), (.ifte (.var "_goto_retry") (.skip) (.ret (some (.null))))]
+def «bp.arena_alloc.params» : List String := ["arena"]
+
+/-- `add_thread` (src/urcu-bp.c) -/
+def «bp.add_thread» : Stmt :=
+  block [(.call (some "_t1") ["arena"] [.addrGlob "registry_arena"] «bp.arena_alloc»), (.assign "rcu_reader_reg" (.var "_t1")), (.ifte (.un .lnot (.var "rcu_reader_reg")) (.prim none (.ext "abort") []) (.skip)), (.prim (some "_t2") (.ext "pthread_setspecific") [.pload (.addrGlob "urcu_bp_key"), .var "rcu_reader_reg"]), (.assign "ret" (.var "_t2")), (.ifte (.var "ret") (.prim none (.ext "abort") []) (.skip)), (.prim (some "_t3") (.ext "pthread_self") []), (.assign "_t4" (.var "_t3")), (.pstore (.fieldAddr (.var "rcu_reader_reg") "tid") (.var "_t4")), (.prim none (.ext "cds_list_add") [.fieldAddr (.var "rcu_reader_reg") "node", .addrGlob "registry"]), (.assign "_t5" (.var "rcu_reader_reg")), (.pstore (.addrTls "urcu_bp_reader") (.var "_t5"))]
+def «bp.add_thread.params» : List String := []
+
+/-- `urcu_bp_register` (src/urcu-bp.c) -/
+def «bp.urcu_bp_register» : Stmt :=
+  block [(.assign "_goto_end" (.lit 0)), (.prim (some "_t1") (.ext "sigfillset") [.addrGlob "&newmask"]), (.assign "ret" (.var "_t1")), (.ifte (.var "ret") (.prim none (.ext "abort") []) (.skip)), (.prim (some "_t2") (.ext "pthread_sigmask") [.cst "SIG_BLOCK" (0), .addrGlob "&newmask", .addrGlob "&oldmask"]), (.assign "ret" (.var "_t2")), (.ifte (.var "ret") (.prim none (.ext "abort") []) (.skip)), (.ifte (.pload (.addrTls "urcu_bp_reader")) (.assign "_goto_end" (.lit 1)) (.skip)), (.ifte (.var "_goto_end") (.skip) (block [(.call none [] [] «bp._urcu_bp_init»), (.prim none (.ext "mutex_lock") [.addrGlob "rcu_registry_lock"]), (.call none [] [] «bp.add_thread»), (.prim none (.ext "mutex_unlock") [.addrGlob "rcu_registry_lock"])])), (.assign "_goto_end" (.lit 0)), (.prim (some "_t3") (.ext "pthread_sigmask") [.cst "SIG_SETMASK" (2), .addrGlob "&oldmask", .null]), (.assign "ret" (.var "_t3")), (.ifte (.var "ret") (.prim none (.ext "abort") []) (.skip))]
+def «bp.urcu_bp_register.params» : List String := []
+
+/-- `cleanup_thread` (src/urcu-bp.c) -/
+def «bp.cleanup_thread» : Stmt :=
+  block [(.assign "_t1" (.lit 0)), (.pstore (.fieldAddr (.var "rcu_reader_reg") "ctr") (.var "_t1")), (.prim none (.ext "cds_list_del") [.fieldAddr (.var "rcu_reader_reg") "node"]), (.assign "_t2" (.lit 0)), (.pstore (.fieldAddr (.var "rcu_reader_reg") "tid") (.var "_t2")), (.assign "_t3" (.lit 0)), (.pstore (.fieldAddr (.var "rcu_reader_reg") "alloc") (.var "_t3")), (.assign "_t4" (.pload (.fieldAddr (.var "chunk") "used"))), (.pstore (.fieldAddr (.var "chunk") "used") (.bin .sub (.var "_t4") (.lit 1)))]
+def «bp.cleanup_thread.params» : List String := ["chunk", "rcu_reader_reg"]
+
+/-- `find_chunk` (src/urcu-bp.c) -/
+def «bp.find_chunk» : Stmt :=
+  block [(.prim (some "_t1") (.ext "cds_list_for_each_entry.first") [.fieldAddr (.addrGlob "registry_arena") "chunk_list"]), (.loop (block [(.assign "chunk" (.var "_t1")), (.ifte (.var "chunk") (.skip) (.brk)), (.prim (some "_t1") (.ext "cds_list_for_each_entry.next") ([.fieldAddr (.addrGlob "registry_arena") "chunk_list"] ++ [.var "chunk"])), (.ifte (.bin .lt (.var "rcu_reader_reg") (.index (.fieldAddr (.var "chunk") "readers") (.lit 0))) (.cont) (.skip)), (.ifte (.bin .ge (.var "rcu_reader_reg") (.index (.fieldAddr (.var "chunk") "readers") (.pload (.fieldAddr (.var "chunk") "capacity")))) (.cont) (.skip)), (.ret (some (.var "chunk")))])), (.ret (some (.null)))]
+def «bp.find_chunk.params» : List String := ["rcu_reader_reg"]
+
+/-- `remove_thread` (src/urcu-bp.c) -/
+def «bp.remove_thread» : Stmt :=
+  block [(.call (some "_t1") ["rcu_reader_reg"] [.var "rcu_reader_reg"] «bp.find_chunk»), (.call none ["chunk", "rcu_reader_reg"] [.var "_t1", .var "rcu_reader_reg"] «bp.cleanup_thread»), (.assign "_t2" (.null)), (.pstore (.addrTls "urcu_bp_reader") (.var "_t2"))]
+def «bp.remove_thread.params» : List String := ["rcu_reader_reg"]
+
+/-- `urcu_bp_exit` (src/urcu-bp.c) -/
+def «bp.urcu_bp_exit» : Stmt :=
+  block [(.prim none (.ext "mutex_lock") [.addrGlob "init_lock"]), (.assign "_t1" (.bin .sub (.pload (.addrGlob "urcu_bp_refcount")) (.lit 1))), (.pstore (.addrGlob "urcu_bp_refcount") (.var "_t1")), (.ifte (.un .lnot (.var "_t1")) (block [(.prim (some "_t2") (.ext "cds_list_for_each_entry_safe.first") [.fieldAddr (.addrGlob "registry_arena") "chunk_list"]), (.loop (block [(.assign "chunk" (.var "_t2")), (.ifte (.var "chunk") (.skip) (.brk)), (.prim (some "_t2") (.ext "cds_list_for_each_entry_safe.next") ([.fieldAddr (.addrGlob "registry_arena") "chunk_list"] ++ [.var "chunk"])), (.assign "tmp" (.var "_t2")), (.call (some "_t3") ["capacity"] [.pload (.fieldAddr (.var "chunk") "capacity")] «bp.chunk_allocation_size»), (.prim none (.ext "munmap") [.var "chunk", .var "_t3"])])), (.prim none (.ext "CDS_INIT_LIST_HEAD") [.fieldAddr (.addrGlob "registry_arena") "chunk_list"]), (.prim (some "_t4") (.ext "pthread_key_delete") [.pload (.addrGlob "urcu_bp_key")]), (.assign "ret" (.var "_t4")), (.ifte (.var "ret") (.prim none (.ext "abort") []) (.skip))]) (.skip)), (.prim none (.ext "mutex_unlock") [.addrGlob "init_lock"])]
+def «bp.urcu_bp_exit.params» : List String := []
+
+/-- `urcu_bp_unregister` (src/urcu-bp.c) -/
+def «bp.urcu_bp_unregister» : Stmt :=
+  block [(.prim (some "_t1") (.ext "sigfillset") [.addrGlob "&newmask"]), (.assign "ret" (.var "_t1")), (.ifte (.var "ret") (.prim none (.ext "abort") []) (.skip)), (.prim (some "_t2") (.ext "pthread_sigmask") [.cst "SIG_BLOCK" (0), .addrGlob "&newmask", .addrGlob "&oldmask"]), (.assign "ret" (.var "_t2")), (.ifte (.var "ret") (.prim none (.ext "abort") []) (.skip)), (.prim none (.ext "mutex_lock") [.addrGlob "rcu_registry_lock"]), (.call none ["rcu_reader_reg"] [.var "rcu_reader_reg"] «bp.remove_thread»), (.prim none (.ext "mutex_unlock") [.addrGlob "rcu_registry_lock"]), (.call none [] [] «bp.urcu_bp_exit»), (.prim (some "_t3") (.ext "pthread_sigmask") [.cst "SIG_SETMASK" (2), .addrGlob "&oldmask", .null]), (.assign "ret" (.var "_t3")), (.ifte (.var "ret") (.prim none (.ext "abort") []) (.skip))]
+def «bp.urcu_bp_unregister.params» : List String := ["rcu_reader_reg"]
+
+/-- `urcu_bp_prune_registry` (src/urcu-bp.c) -/
+def «bp.urcu_bp_prune_registry» : Stmt :=
+  block [(.prim (some "_t1") (.ext "cds_list_for_each_entry.first") [.fieldAddr (.addrGlob "registry_arena") "chunk_list"]), (.loop (block [(.assign "chunk" (.var "_t1")), (.ifte (.var "chunk") (.skip) (.brk)), (.prim (some "_t1") (.ext "cds_list_for_each_entry.next") ([.fieldAddr (.addrGlob "registry_arena") "chunk_list"] ++ [.var "chunk"])), (.assign "spot_idx" (.lit 0)), (.assign "_forbrk1" (.lit 0)), (.loop (.ifte (.bin .lt (.var "spot_idx") (.pload (.fieldAddr (.var "chunk") "capacity"))) (block [(.loop (block [(.assign "reader" (.index (.fieldAddr (.var "chunk") "readers") (.var "spot_idx"))), (.ifte (.un .lnot (.pload (.fieldAddr (.var "reader") "alloc"))) (.brk) (.skip)), (.prim (some "_t2") (.ext "pthread_self") []), (.ifte (.bin .eq (.pload (.fieldAddr (.var "reader") "tid")) (.var "_t2")) (.brk) (.skip)), (.call none ["chunk", "rcu_reader_reg"] [.var "chunk", .var "reader"] «bp.cleanup_thread»), (.brk)])), (.ifte (.var "_forbrk1") (.brk) (.skip)), (.assign "_t3" (.var "spot_idx")), (.assign "spot_idx" (.bin .add (.var "spot_idx") (.lit 1)))]) (.brk)))]))]
+def «bp.urcu_bp_prune_registry.params» : List String := []
+
+/-- `urcu_bp_before_fork` (src/urcu-bp.c) -/
+def «bp.urcu_bp_before_fork» : Stmt :=
+  block [(.prim (some "_t1") (.ext "sigfillset") [.addrGlob "&newmask"]), (.assign "ret" (.var "_t1")), (.prim (some "_t2") (.ext "pthread_sigmask") [.cst "SIG_BLOCK" (0), .addrGlob "&newmask", .addrGlob "&oldmask"]), (.assign "ret" (.var "_t2")), (.prim none (.ext "mutex_lock") [.addrGlob "rcu_gp_lock"]), (.prim none (.ext "mutex_lock") [.addrGlob "rcu_registry_lock"]), (.assign "_t3" (.pload (.addrGlob "&oldmask"))), (.pstore (.addrGlob "saved_fork_signal_mask") (.var "_t3"))]
+def «bp.urcu_bp_before_fork.params» : List String := []
+
+/-- `urcu_bp_after_fork_parent` (src/urcu-bp.c) -/
+def «bp.urcu_bp_after_fork_parent» : Stmt :=
+  block [(.assign "_t1" (.pload (.addrGlob "saved_fork_signal_mask"))), (.pstore (.addrGlob "&oldmask") (.var "_t1")), (.prim none (.ext "mutex_unlock") [.addrGlob "rcu_registry_lock"]), (.prim none (.ext "mutex_unlock") [.addrGlob "rcu_gp_lock"]), (.prim (some "_t2") (.ext "pthread_sigmask") [.cst "SIG_SETMASK" (2), .addrGlob "&oldmask", .null]), (.assign "ret" (.var "_t2"))]
+def «bp.urcu_bp_after_fork_parent.params» : List String := []
+
+/-- `urcu_bp_after_fork_child` (src/urcu-bp.c) -/
+def «bp.urcu_bp_after_fork_child» : Stmt :=
+  block [(.call none [] [] «bp.urcu_bp_prune_registry»), (.assign "_t1" (.pload (.addrGlob "saved_fork_signal_mask"))), (.pstore (.addrGlob "&oldmask") (.var "_t1")), (.prim none (.ext "mutex_unlock") [.addrGlob "rcu_registry_lock"]), (.prim none (.ext "mutex_unlock") [.addrGlob "rcu_gp_lock"]), (.prim (some "_t2") (.ext "pthread_sigmask") [.cst "SIG_SETMASK" (2), .addrGlob "&oldmask", .null]), (.assign "ret" (.var "_t2"))]
+def «bp.urcu_bp_after_fork_child.params» : List String := []
+
 /-- functions the translator could not express in the IR subset (listed, never defaulted) -/
 def untranslated : List String := []
-def translated : List String := ["urcu_memb_smp_mb_slave", "_urcu_memb_read_lock_update", "_urcu_memb_read_lock", "urcu_common_wake_up_gp", "_urcu_memb_read_unlock_update_and_wakeup", "_urcu_memb_read_unlock", "_urcu_memb_read_ongoing", "_urcu_mb_read_lock_update", "_urcu_mb_read_lock", "_urcu_mb_read_unlock_update_and_wakeup", "_urcu_mb_read_unlock", "_urcu_mb_read_ongoing", "urcu_bp_smp_mb_slave", "_urcu_bp_read_lock_update", "_urcu_bp_read_lock", "_urcu_bp_read_unlock", "_urcu_bp_read_ongoing", "_urcu_qsbr_read_lock", "_urcu_qsbr_read_unlock", "_urcu_qsbr_read_ongoing", "urcu_qsbr_wake_up_gp", "_urcu_qsbr_quiescent_state_update_and_wakeup", "_urcu_qsbr_quiescent_state", "_urcu_qsbr_thread_offline", "_urcu_qsbr_thread_online", "___cds_wfs_end", "_cds_wfs_push", "___cds_wfs_node_sync_next", "___cds_wfs_pop", "___cds_wfs_pop_all", "_cds_wfs_empty", "___cds_lfs_empty_head", "_cds_lfs_push", "___cds_lfs_pop", "___cds_lfs_pop_all", "_cds_lfs_empty", "___cds_wfcq_append", "_cds_wfcq_enqueue", "_cds_wfcq_empty", "___cds_wfcq_busy_wait", "___cds_wfcq_node_sync_next", "_cds_wfcq_node_init_atomic", "___cds_wfcq_dequeue_with_state", "___cds_wfcq_splice", "_cds_lfq_enqueue_rcu", "make_dummy", "enqueue_dummy", "rcu_free_dummy", "_cds_lfq_dequeue_rcu", "_cds_lfs_push_rcu", "_cds_lfs_pop_rcu", "_cds_wfq_enqueue", "urcu_ref_get_safe", "urcu_ref_put", "urcu_ref_get_unless_zero", "urcu_wait_add", "urcu_move_waiters", "urcu_wait_set_state", "_cds_wfs_node_init", "urcu_wait_node_init", "urcu_adaptative_wake_up", "urcu_adaptative_busy_wait", "call_rcu_wait", "call_rcu_wake_up", "call_rcu_completion_wait", "call_rcu_completion_wake_up", "wake_call_rcu_thread", "_cds_wfcq_node_init", "_call_rcu", "futex_wait", "futex_wake_up", "wake_worker_thread", "wake_up_defer", "wait_defer", "rcu_defer_barrier_queue", "_rcu_defer_barrier_thread", "rcu_defer_barrier_thread", "_defer_rcu", "_cds_wfs_first", "___cds_wfs_next", "_cds_wfs_next_blocking", "urcu_wake_all_waiters", "set_thread_cpu_affinity", "_cds_wfcq_init", "___cds_wfcq_splice_blocking", "___cds_wfcq_first", "___cds_wfcq_first_blocking", "___cds_wfcq_next", "___cds_wfcq_next_blocking", "call_rcu_thread", "call_rcu", "call_rcu_lock", "urcu_ref_set", "call_rcu_unlock", "rcu_barrier", "_rcu_barrier_complete", "free_completion", "workqueue_thread", "urcu_workqueue_queue_work", "urcu_workqueue_create_completion", "urcu_ref_get", "urcu_workqueue_queue_completion", "urcu_workqueue_wait_completion", "urcu_workqueue_destroy_completion", "urcu_workqueue_flush_queued_work", "urcu_workqueue_pause_worker", "urcu_workqueue_resume_worker", "_urcu_workqueue_wait_complete", "memb.smp_mb_master", "memb.wait_gp", "urcu_common_reader_state", "memb.wait_for_readers", "memb.synchronize_rcu", "mb.smp_mb_master", "mb.wait_gp", "mb.wait_for_readers", "mb.synchronize_rcu", "qsbr.wait_gp", "urcu_qsbr_reader_state", "qsbr.wait_for_readers", "qsbr.urcu_qsbr_read_ongoing", "qsbr.urcu_qsbr_thread_offline", "qsbr.urcu_qsbr_thread_online", "qsbr.urcu_qsbr_synchronize_rcu", "poll.urcu_poll_worker_cb", "poll.start_poll_synchronize_rcu", "poll.poll_state_synchronize_rcu", "bp.smp_mb_master", "urcu_bp_reader_state", "bp.wait_for_readers", "bp.urcu_bp_synchronize_rcu"]
+def translated : List String := ["urcu_memb_smp_mb_slave", "_urcu_memb_read_lock_update", "_urcu_memb_read_lock", "urcu_common_wake_up_gp", "_urcu_memb_read_unlock_update_and_wakeup", "_urcu_memb_read_unlock", "_urcu_memb_read_ongoing", "_urcu_mb_read_lock_update", "_urcu_mb_read_lock", "_urcu_mb_read_unlock_update_and_wakeup", "_urcu_mb_read_unlock", "_urcu_mb_read_ongoing", "urcu_bp_smp_mb_slave", "_urcu_bp_read_lock_update", "_urcu_bp_read_lock", "_urcu_bp_read_unlock", "_urcu_bp_read_ongoing", "_urcu_qsbr_read_lock", "_urcu_qsbr_read_unlock", "_urcu_qsbr_read_ongoing", "urcu_qsbr_wake_up_gp", "_urcu_qsbr_quiescent_state_update_and_wakeup", "_urcu_qsbr_quiescent_state", "_urcu_qsbr_thread_offline", "_urcu_qsbr_thread_online", "___cds_wfs_end", "_cds_wfs_push", "___cds_wfs_node_sync_next", "___cds_wfs_pop", "___cds_wfs_pop_all", "_cds_wfs_empty", "___cds_lfs_empty_head", "_cds_lfs_push", "___cds_lfs_pop", "___cds_lfs_pop_all", "_cds_lfs_empty", "___cds_wfcq_append", "_cds_wfcq_enqueue", "_cds_wfcq_empty", "___cds_wfcq_busy_wait", "___cds_wfcq_node_sync_next", "_cds_wfcq_node_init_atomic", "___cds_wfcq_dequeue_with_state", "___cds_wfcq_splice", "_cds_lfq_enqueue_rcu", "make_dummy", "enqueue_dummy", "rcu_free_dummy", "_cds_lfq_dequeue_rcu", "_cds_lfs_push_rcu", "_cds_lfs_pop_rcu", "_cds_wfq_enqueue", "urcu_ref_get_safe", "urcu_ref_put", "urcu_ref_get_unless_zero", "urcu_wait_add", "urcu_move_waiters", "urcu_wait_set_state", "_cds_wfs_node_init", "urcu_wait_node_init", "urcu_adaptative_wake_up", "urcu_adaptative_busy_wait", "call_rcu_wait", "call_rcu_wake_up", "call_rcu_completion_wait", "call_rcu_completion_wake_up", "wake_call_rcu_thread", "_cds_wfcq_node_init", "_call_rcu", "futex_wait", "futex_wake_up", "wake_worker_thread", "wake_up_defer", "wait_defer", "rcu_defer_barrier_queue", "_rcu_defer_barrier_thread", "rcu_defer_barrier_thread", "_defer_rcu", "_cds_wfs_first", "___cds_wfs_next", "_cds_wfs_next_blocking", "urcu_wake_all_waiters", "set_thread_cpu_affinity", "_cds_wfcq_init", "___cds_wfcq_splice_blocking", "___cds_wfcq_first", "___cds_wfcq_first_blocking", "___cds_wfcq_next", "___cds_wfcq_next_blocking", "call_rcu_thread", "call_rcu", "call_rcu_lock", "urcu_ref_set", "call_rcu_unlock", "rcu_barrier", "_rcu_barrier_complete", "free_completion", "workqueue_thread", "urcu_workqueue_queue_work", "urcu_workqueue_create_completion", "urcu_ref_get", "urcu_workqueue_queue_completion", "urcu_workqueue_wait_completion", "urcu_workqueue_destroy_completion", "urcu_workqueue_flush_queued_work", "urcu_workqueue_pause_worker", "urcu_workqueue_resume_worker", "_urcu_workqueue_wait_complete", "memb.smp_mb_master", "memb.wait_gp", "urcu_common_reader_state", "memb.wait_for_readers", "memb.synchronize_rcu", "memb.rcu_sys_membarrier_status", "memb.rcu_sys_membarrier_init", "memb.rcu_init", "memb.rcu_register_thread", "memb.rcu_unregister_thread", "mb.smp_mb_master", "mb.wait_gp", "mb.wait_for_readers", "mb.synchronize_rcu", "qsbr.wait_gp", "urcu_qsbr_reader_state", "qsbr.wait_for_readers", "qsbr.urcu_qsbr_read_ongoing", "qsbr.urcu_qsbr_thread_offline", "qsbr.urcu_qsbr_thread_online", "qsbr.urcu_qsbr_synchronize_rcu", "qsbr.urcu_qsbr_register_thread", "qsbr.urcu_qsbr_unregister_thread", "poll.urcu_poll_worker_cb", "poll.start_poll_synchronize_rcu", "poll.poll_state_synchronize_rcu", "bp.smp_mb_master", "urcu_bp_reader_state", "bp.wait_for_readers", "bp.urcu_bp_synchronize_rcu", "bp.urcu_bp_sys_membarrier_status", "bp.urcu_bp_sys_membarrier_init", "bp._urcu_bp_init", "bp.chunk_allocation_size", "bp.mremap_wrapper", "bp.expand_arena", "bp.arena_alloc", "bp.add_thread", "bp.urcu_bp_register", "bp.cleanup_thread", "bp.find_chunk", "bp.remove_thread", "bp.urcu_bp_exit", "bp.urcu_bp_unregister", "bp.urcu_bp_prune_registry", "bp.urcu_bp_before_fork", "bp.urcu_bp_after_fork_parent", "bp.urcu_bp_after_fork_child"]
 end UrcuVerif.Gen.Src
